@@ -50,7 +50,7 @@ def main():
     assert rc == 0, out
     try:
         env = {"PYTHONPATH": f"{wt}/src:{wt}", "PATH": "/usr/bin:/bin", "PYTHONHASHSEED": "0", "HOME": "/root",
-               "PYTHONDONTWRITEBYTECODE": "1", "PYTHONPYCACHEPREFIX": "/nonexistent/verif-no-pycache"}
+               "PYTHONDONTWRITEBYTECODE": "1", "PYTHONUNBUFFERED": "1", "PYTHONPYCACHEPREFIX": "/nonexistent/verif-no-pycache"}
         rc0, o0 = sh([PY, str(demo)], env=env, cwd=str(wt), timeout=600)
         meta["ran"].append({"cmd": f"PYTHONPATH=<tree>/src:<tree> {PY} demo.py   # clean tree", "rc": rc0})
         rc, o = sh(["git", "-C", str(wt), "apply", str(patch)])
